@@ -251,6 +251,7 @@ Definition asSC (x : sx) : option scall :=
   | L [I 2%Z; s; k] => obind (asNat s) (fun s => obind (asNat k) (fun k => Some (SDel s k)))
   | L [I 3%Z; s] => obind (asNat s) (fun s => Some (SGetData s))
   | L [I 4%Z; k; v] => obind (asNat k) (fun k => obind (asNat v) (fun v => Some (SFind k v)))
+  | L [I 5%Z; s] => obind (asNat s) (fun s => Some (SDelData s))
   | _ => None
   end.
 Definition asPair (x : sx) : option (nat * nat) :=
